@@ -584,9 +584,23 @@ func (db *SingleBucketBackend) ForceDeleteBucket(name string) error {
 		}
 	}
 
-	// Delete the bucket itself
-	if err := db.fs.RemoveAll("."); err != nil {
+	// Remove whatever is left below the root, but not the root itself: the
+	// root of the Fs *is* the bucket, which this backend can neither delete nor
+	// create again. (On afero.MemMapFs, RemoveAll(".") also left the Fs in a
+	// state in which the next listing recursed until the stack overflowed.)
+	entries, err := afero.ReadDir(db.fs, ".")
+	if err != nil {
 		return err
+	}
+	for _, entry := range entries {
+		if entry.IsDir() {
+			err = removeAll(db.fs, entry.Name())
+		} else {
+			err = db.fs.Remove(entry.Name())
+		}
+		if err != nil && !os.IsNotExist(err) {
+			return err
+		}
 	}
 
 	return nil
